@@ -4,7 +4,7 @@ use crate::engine::core::read::cache::{
     GlobalZoneIndexCache, GlobalZoneSurfCache, GlobalZoneXorFilterCache,
 };
 use crate::engine::core::segment::segment_id::SegmentId;
-use crate::engine::core::{SegmentEntry, SegmentIndex};
+use crate::engine::core::{PublishedUids, SegmentEntry, SegmentIndex};
 use crate::engine::errors::StoreError;
 use std::collections::HashSet;
 use std::path::PathBuf;
@@ -60,6 +60,7 @@ pub struct CompactionHandover {
     shard_id: u32,
     shard_dir: PathBuf,
     segment_ids: Arc<RwLock<Vec<String>>>,
+    published_uids: Arc<PublishedUids>,
     flush_lock: Arc<tokio::sync::Mutex<()>>,
     column_cache: Arc<dyn SegmentCache>,
     zone_surf_cache: Arc<dyn SegmentCache>,
@@ -77,6 +78,7 @@ impl CompactionHandover {
     ) -> Self {
         Self {
             shard_id,
+            published_uids: PublishedUids::for_shard(&shard_dir),
             shard_dir,
             segment_ids,
             flush_lock,
@@ -106,6 +108,7 @@ impl CompactionHandover {
     ) -> Self {
         Self {
             shard_id,
+            published_uids: PublishedUids::for_shard(&shard_dir),
             shard_dir,
             segment_ids,
             flush_lock,
@@ -136,7 +139,7 @@ impl CompactionHandover {
 
         #[cfg(feature = "sim-hooks")]
         crate::sim_hooks::gate("compact.before_commit", format!("s{}", self.shard_id)).await;
-        let drained_labels = {
+        let (drained_labels, published_updates) = {
             let _guard = self.flush_lock.lock().await;
             let mut index = SegmentIndex::load(&self.shard_dir).await?;
 
@@ -276,6 +279,21 @@ impl CompactionHandover {
                 );
             }
 
+            // What the index now lists for every segment this batch touched: an input that
+            // keeps other uids stays published with a shorter list, a drained one is gone.
+            let published_updates: Vec<(String, Option<Vec<String>>)> = input_labels
+                .iter()
+                .cloned()
+                .chain(new_entries.iter().map(|entry| entry.label()))
+                .map(|label| {
+                    let uids = index
+                        .iter_all()
+                        .find(|entry| entry.label() == label)
+                        .map(|entry| entry.uids.clone());
+                    (label, uids)
+                })
+                .collect();
+
             index.save(&self.shard_dir).await?;
 
             if tracing::enabled!(tracing::Level::INFO) {
@@ -288,7 +306,7 @@ impl CompactionHandover {
                 );
             }
 
-            drained_labels
+            (drained_labels, published_updates)
         };
 
         #[cfg(feature = "sim-hooks")]
@@ -296,6 +314,12 @@ impl CompactionHandover {
         // Update segment IDs: remove all drained segments, add all new segments
         let retired_set: HashSet<&str> = drained_labels.iter().map(|s| s.as_str()).collect();
         let mut guard = self.segment_ids.write().unwrap();
+        // Under the same lock, so that readers never pair the new list with the old uid
+        // lists: a partially drained input stays in the list but stops serving the uids
+        // that now live in the output segment.
+        for (label, uids) in &published_updates {
+            self.published_uids.record(label, uids.as_deref());
+        }
         let before = guard.len();
         guard.retain(|label| !retired_set.contains(label.as_str()));
         for entry in &new_entries {
